@@ -287,7 +287,7 @@ def gen_multisig(r, quick, nm):
                   ("pre", {"op": "seed_chain", "chain": "chainB"}), ("block", [], {})]
         world_steps = [s[1] for s in script if s[0] == "pre"]
         pool = trust + ["v:9", "v:10", "bad"] + ["wrongmsg:" + t for t in trust[:2]]
-        for _ in range(8 if quick else 60):
+        for _ in range(20 if quick else 80):
             k = r.randrange(0, n + 4)
             signers = [r.choice(pool) for _ in range(k)] if pool else []
             if r.random() < 0.3 and trust:
@@ -360,7 +360,7 @@ def gen_entry(r, quick):
            entry_script([("init",), ("emit", True)]),
            entry_script([("emit", True)]),
            entry_script([("ibtp", True, True), ("ibtp", False, True), ("init",), ("ibtp", True, True), ("data", True)])]
-    for _ in range(4 if quick else 80):
+    for _ in range(15 if quick else 120):
         ops = []
         for _ in range(r.randrange(2, 7)):
             k = r.random()
@@ -446,7 +446,7 @@ def run(ctx):
     open_map, xflagsets, eflagsets = flag_setup()
     ids, nm = X.Ids(), Namer()
     if ctx.model_ok:
-        pitems = [crash_corpus(nm)] + [resolve_script(gen_proof_history(ctx.rng, ctx.quick, nm)) for _ in range(40 if ctx.quick else 1200)]
+        pitems = [crash_corpus(nm)] + [resolve_script(gen_proof_history(ctx.rng, ctx.quick, nm)) for _ in range(100 if ctx.quick else 1500)]
         mitems = gen_multisig(ctx.rng, ctx.quick, nm)
         eitems = gen_entry(ctx.rng, ctx.quick)
         allg = pitems + mitems + eitems
